@@ -67,12 +67,21 @@ def q_grammar(side: str) -> Grammar:
         # (an ORDER BY expression over a non-output column is kept out: SQLite accepts bare non-grouped columns there, DuckDB does not)
         A("order.name", 1, " ORDER BY c1, c2"),
     ]
+    # ORDER BY keys that are expressions (only where every column is in scope: plain single-table selects); the
+    # trailing ordinals 1, 2 make the order total, so whole sequences are compared
+    order_s = order + [
+        # (constant keys are kept out: DuckDB rejects non-integer literals in ORDER BY and reads integers as ordinals)
+        A("order.key_int", 1, " ORDER BY {ki}, 1, 2"), A("order.key_int_desc", 1, " ORDER BY {ki} DESC, 1, 2"),
+        A("order.key_text", 1, " ORDER BY {kx}, 1, 2"), A("order.key_cond", 1, " ORDER BY {c}, 1, 2"),
+        A("order.key_int_limit", 1, " ORDER BY {ki}, 1, 2 LIMIT 2"), A("order.key_text_desc_limit", 1, " ORDER BY {kx} DESC, 1, 2 LIMIT 3 OFFSET 1"),
+        A("order.key_int_nf", 1, " ORDER BY {ki} NULLS FIRST, 1, 2"), A("order.key_int_desc_nl", 1, " ORDER BY {ki} DESC NULLS LAST, 1, 2"),
+    ]
     q = [
-        A("scan", 0, "SELECT a AS c1, b AS c2 FROM t{order}"),
-        A("proj_int", 1, "SELECT {i} AS c1, b AS c2 FROM t{order}"),
-        A("proj_text", 1, "SELECT {x} AS c1, a AS c2 FROM t{order}"),
-        A("proj_cond", 1, "SELECT a AS c1, {c} AS c2 FROM t{order}"),
-        A("filter", 1, "SELECT a AS c1, s AS c2 FROM t WHERE {c}{order}"),
+        A("scan", 0, "SELECT a AS c1, b AS c2 FROM t{order_s}"),
+        A("proj_int", 1, "SELECT {i} AS c1, b AS c2 FROM t{order_s}"),
+        A("proj_text", 1, "SELECT {x} AS c1, a AS c2 FROM t{order_s}"),
+        A("proj_cond", 1, "SELECT a AS c1, {c} AS c2 FROM t{order_s}"),
+        A("filter", 1, "SELECT a AS c1, s AS c2 FROM t WHERE {c}{order_s}"),
         A("distinct", 1, "SELECT DISTINCT {i} AS c1, s AS c2 FROM t{order}"),
         A("group", 1, "SELECT a AS c1, {agg} AS c2 FROM t GROUP BY a{order}"),
         A("group_text", 1, "SELECT s AS c1, {agg} AS c2 FROM t GROUP BY s{order}"),
@@ -112,7 +121,8 @@ def q_grammar(side: str) -> Grammar:
         "x": xleaf + xfun, "xo": xleaf + [f for f in xfun if f.tag not in ("dpipe", "dpipe3", "dpipe_int")] + [A("xwrap", 0, "({xa})")],
         "xa": [f for f in xfun if f.tag in ("dpipe", "dpipe_int")],
         "c": cond, "co": [c for c in cond if c.tag not in ("and", "or", "not", "and_or", "or_and", "not_and")] + [A("cwrap", 0, "({cc})")], "cc": conn,
-        "q": q, "agg": agg, "jk": jk, "order": order, "fmt": fmt,
+        "q": q, "agg": agg, "jk": jk, "order": order, "order_s": order_s, "fmt": fmt,
+        "ki": [A("k.a", 0, "a"), A("k.b", 1, "b")] + arith + ifun, "kx": [A("k.s", 0, "s")] + xfun,
     }
     return Grammar(rules, depth_nts=("i", "io", "ia", "x", "xo", "xa", "c", "co", "cc"))
 
